@@ -22,7 +22,20 @@ try:
     flags = []
     head = src[:3000] + (open(demosh).read() if os.path.exists(demosh) else "")
     # flags come from the compile line(s) only when the demo gives one (prose in the header may mention flags that were merely tried)
-    _hl = re.sub(r"\\\n\s*(//|#)?", " ", head)
+    def joincmd(t):
+        # a compile command may run over several comment lines (with or without a trailing backslash): join the lines after a `g++` line
+        # until the one that names the output (-o)
+        t = re.sub(r"\\\n\s*(//|#)?", " ", t); ls = t.split("\n"); out = []; i = 0
+        while i < len(ls):
+            l = ls[i]
+            if "g++" in l and " -o" not in l:
+                j = i + 1
+                while j < len(ls) and j <= i + 4 and re.match(r"\s*(//|#|\*)", ls[j]) and " -o" not in l:
+                    l += " " + re.sub(r"^\s*(//|#|\*)\s*", "", ls[j]); j += 1
+                i = j - 1
+            out.append(l); i += 1
+        return "\n".join(out)
+    _hl = joincmd(head)
     _cl = " ".join(re.findall(r"g\+\+[^\n]*", _hl))
     full_head = head
     if _cl: head = _cl
@@ -48,7 +61,7 @@ try:
         exe = "/tmp/seeddemo_%s_%s" % (name, tag)
         # link exactly the library sources the demo's own compile line mentions (demos that supply their own
         # nfl::randombytes / nfl::fastrandombytes leave the corresponding file out)
-        hl = re.sub(r"\\\n\s*(//|#)?", " ", head)
+        hl = joincmd(head)
         hl = " ".join(re.findall(r"g\+\+[^\n]*", hl)) if "g++" in hl else hl       # only the compile line(s), not prose
         mentions = lambda f: (f in hl)
         parts = [demo]
